@@ -45,7 +45,7 @@ def check_split(w):
 
 
 def gen_split(rng):
-    src, words, labs, refs = R.gen_doc(rng, depth=2, bad_titles=True)
+    src, words, labs, refs = R.gen_doc(rng, depth=2, bad_titles=True, same_titles=rng.random() < 0.35)
     return dict(src=src, words=words, level=rng.choice([-10, 0, 1, 2, 3, 6]),
                 template=rng.choice([None, 'index [$id, sect$num(4)]', 'index [$title, file$num]', 'single', '[$id,sect$num(4)]', 'index sect$num(3)',
                                      'doc-[$id,sect$num(3)]', 'index [$title(2), file$num]']))
